@@ -131,15 +131,22 @@ def px_rules(ctx: Ctx):
                 continue
             pos, size0 = ("attr", W, "pos"), ("attr", W, "size")
             full = truth(("cmp", "Eq", pos, size0), e.state.facts)
+            if full is None:        # the same test spelled as a difference: size - pos == 0
+                full = truth(("cmp", "Eq", ("binop", "Sub", size0, pos), ("const", 0)), e.state.facts)
+            # (buf + pos)[0] is buf[pos]
+            if e.index == ("const", 0) and base[0] == "binop" and base[1] == "Add" and base[3] == pos:
+                e_index = pos
+            else:
+                e_index = e.index
             if full is False:
-                ok, why = e.index == pos, "pos != size (room left), index is writer.pos"
+                ok, why = e_index == pos, "pos != size (room left), index is writer.pos"
             elif full is True:
                 new_size = e.state.heap.get((W, "size"))
                 new_buf = e.state.heap.get((W, "buf"))
                 grown = new_size is not None and new_size[0] == "binop" and new_size[1] == "Add" and new_size[2] == size0 \
                     and new_size[3][0] == "const" and isinstance(new_size[3][1], int) and new_size[3][1] > 0
                 sized = new_buf is not None and callee_name(new_buf) in ALLOC and new_buf[2][-1] == new_size
-                ok, why = grown and sized and e.index == pos, f"buffer regrown to {show(new_size) if new_size else None} before the store"
+                ok, why = grown and sized and e_index == pos, f"buffer regrown to {show(new_size) if new_size else None} before the store"
             else:
                 ok, why = False, "no growth check dominates the store"
             ctx.ob(rule, q, f"writer.buf[{show(e.index)}] = ...", ok, "store through writer.buf not dominated by the growth check: " + why,
@@ -269,7 +276,16 @@ def px5(ctx: Ctx):
             problems.append("is a Python-level `def` function")
         if meta.get("nogil") or meta.get("with_gil"):
             problems.append("declared nogil / with gil")
+        # `for i in range(...)` with a C integer loop variable is compiled to a C loop: no iterator object, no Python call
+        c_ints = {nm for nm, ty in {**meta.get("argtypes", {}), **meta.get("locals", {})}.items()
+                  if ty in ("int", "long", "short", "char", "unsigned int", "unsigned long", "Py_ssize_t", "size_t", "uint8_t", "uint16_t",
+                            "uint32_t", "uint64_t", "int64_t", "int32_t", "Py_UCS4")}
+        c_loops = {id(n) for n in ast.walk(fi.node) if isinstance(n, ast.For) and isinstance(n.target, ast.Name) and n.target.id in c_ints and
+                   isinstance(n.iter, ast.Call) and isinstance(n.iter.func, ast.Name) and n.iter.func.id == "range" and not n.orelse}
+        c_range_calls = {id(n.iter) for n in ast.walk(fi.node) if id(n) in c_loops}
         for n in ast.walk(fi.node):
+            if id(n) in c_loops:
+                continue
             if isinstance(n, ast.With):
                 problems.append(f"`with {ast.unparse(n.items[0].context_expr)}` block (line {n.lineno})")
             if isinstance(n, (ast.JoinedStr, ast.ListComp, ast.GeneratorExp, ast.DictComp, ast.SetComp, ast.Dict, ast.List,
@@ -283,6 +299,8 @@ def px5(ctx: Ctx):
             n = callee_name(e.value)
             f = e.func
             if n in cdefs or n in C_CALLS or (cy["cimports"].get(n) and n != "PyUnicode_DecodeASCII"):
+                continue
+            if n == "range" and id(e.node) in c_range_calls:
                 continue
             if n == "PyUnicode_DecodeASCII":
                 # the copy-out: must be the return value (nothing is written to the buffer afterwards)
@@ -329,7 +347,8 @@ def px8(ctx: Ctx):
     def size_of(t, f):
         if t[0] == "global" and t[2] in dims.get("<module>", {}):
             return dims["<module>"][t[2]]
-        if t[0] == "attr" and t[1] == ("param", "self") and f is not None and f.cls and t[2] in dims.get(f.cls, {}):
+        if t[0] == "attr" and (t[1] == ("param", "self") or (t[1][0] == "phi" and t[1][2] == "self")) and f is not None and f.cls and \
+                t[2] in dims.get(f.cls, {}):
             return dims[f.cls][t[2]]
         if t[0] == "phi" and t[2] in dims.get("<module>", {}):      # the array name inside a module-level loop
             return dims["<module>"][t[2]]
@@ -401,6 +420,19 @@ def px8(ctx: Ctx):
             ctx.instance(rule)
             if e.index[0] == "const" and isinstance(e.index[1], int):
                 hi = e.index[1]
+            elif e.index[0] == "elem":
+                # the loop variable of `for k in range(...)` with bounds that are constants on this path
+                try:
+                    dom = list(Folder(model).fold(e.index[1]))
+                except (CannotFold, TypeError, ValueError):
+                    dom = None
+                if dom is None:
+                    lo, hi = interval(e.state.facts, e.index, 0, 1 << 62)
+                elif not dom:
+                    ctx.ob(rule, f.qual, f"{nm}[{show(e.index)[:30]}] = ...", True, where=where(f, e.node), sample="empty range on this path", nontrivial=False)
+                    continue
+                else:
+                    hi = max(dom) if min(dom) >= 0 else 1 << 62
             else:
                 lo, hi = interval(e.state.facts, e.index, 0, 1 << 62)
             ctx.ob(rule, f.qual, f"{nm}[{show(e.index)[:30]}] = ...", hi < local[nm],
